@@ -77,4 +77,106 @@ theorem regions_back_to_back (env : Env) (y : RSys) (c : Nat) (r r' : Req) (hidl
   | ambiguous => simp
   | to p => simp only; cases hr : route p <;> simp [hr]
 
+/-! ### every answer is an answer of the serial history -/
+
+/-- the state after the first `n` requests of the recorded serial history -/
+def stateAt (env : Env) (s0 : State) (hist : List Req) (n : Nat) : State := serial env (hist.take n) s0
+
+/-- an answer some thread got is explained by the serial history `hist`: a direct request was
+    served atomically in the state after some prefix; an /id/ request was resolved against the
+    index of the state after one prefix and its handler ran in the state after a later one -/
+def Explained (env : Env) (s0 : State) (hist : List Req) (e : Nat × Req × Resp) : Prop :=
+  (∃ n, n ≤ hist.length ∧ e.2.2 = (serve env e.2.1 (stateAt env s0 hist n)).2) ∨
+  (∃ m n, m ≤ n ∧ n ≤ hist.length ∧
+    e.2.2 = (finishId env e.2.1 (handleConfigID (stateAt env s0 hist m).index e.2.1.path) (stateAt env s0 hist n)).2.1)
+
+theorem stateAt_append {env : Env} {s0 : State} {hist : List Req} (ext : List Req) {n : Nat} (h : n ≤ hist.length) :
+    stateAt env s0 (hist ++ ext) n = stateAt env s0 hist n := by
+  unfold stateAt; rw [List.take_append_of_le_length h]
+
+theorem stateAt_full (env : Env) (s0 : State) (hist : List Req) : stateAt env s0 hist hist.length = serial env hist s0 := by
+  unfold stateAt; rw [List.take_length]
+
+theorem Explained.mono {env : Env} {s0 : State} {hist : List Req} (ext : List Req) {e : Nat × Req × Resp}
+    (h : Explained env s0 hist e) : Explained env s0 (hist ++ ext) e := by
+  rcases h with ⟨n, hn, h⟩ | ⟨m, n, hmn, hn, h⟩
+  · exact Or.inl ⟨n, by simp; omega, by rw [stateAt_append ext hn]; exact h⟩
+  · exact Or.inr ⟨m, n, hmn, by simp; omega, by
+      rw [stateAt_append ext hn, stateAt_append ext (Nat.le_trans hmn hn)]; exact h⟩
+
+/-- the invariant of an interleaving: the state is the serial state, every answer given so far
+    is explained, and every thread between its two regions holds a resolution computed from
+    the index of an earlier serial state -/
+structure RInv (env : Env) (s0 : State) (y : RSys) : Prop where
+  state : y.s = serial env y.hist s0
+  answers : ∀ e ∈ y.done, Explained env s0 y.hist e
+  pending : ∀ c r res, y.pend c = .resolved r res →
+    ∃ m, m ≤ y.hist.length ∧ res = handleConfigID (stateAt env s0 y.hist m).index r.path
+
+theorem rinv_start (env : Env) (s0 : State) : RInv env s0 (RSys.start s0) :=
+  ⟨rfl, by intro e he; simp [RSys.start] at he, by intro c r res h; simp [RSys.start] at h⟩
+
+theorem rinv_step {env : Env} {s0 : State} {y : RSys} (hi : RInv env s0 y) (c : Nat) (r : Req) :
+    RInv env s0 (regionStep env y c r) := by
+  have hstate := regionStep_serial hi.state c r
+  refine ⟨hstate, ?_, ?_⟩
+  · -- answers
+    unfold regionStep
+    cases hp : y.pend c with
+    | resolved r0 res =>
+      simp only
+      intro e he
+      rcases List.mem_append.1 he with he | he
+      · exact (hi.answers e he).mono _
+      · simp at he; subst he
+        obtain ⟨m, hm, hres⟩ := hi.pending c r0 res hp
+        refine Or.inr ⟨m, y.hist.length, hm, by simp, ?_⟩
+        simp only
+        rw [stateAt_append _ (Nat.le_refl _), stateAt_append _ hm, stateAt_full, ← hi.state, ← hres]
+    | idle =>
+      simp only
+      split
+      · exact hi.answers
+      · intro e he
+        simp only at he
+        rcases List.mem_append.1 he with he | he
+        · exact (hi.answers e he).mono _
+        · simp at he; subst he
+          refine Or.inl ⟨y.hist.length, by simp, ?_⟩
+          simp only
+          rw [stateAt_append _ (Nat.le_refl _), stateAt_full, ← hi.state]
+  · -- pending
+    unfold regionStep
+    cases hp : y.pend c with
+    | resolved r0 res =>
+      simp only
+      intro c' r' res' h
+      simp only [updP] at h
+      split at h
+      · cases h
+      · obtain ⟨m, hm, hres⟩ := hi.pending c' r' res' h
+        exact ⟨m, by simp; omega, by rw [stateAt_append _ hm]; exact hres⟩
+    | idle =>
+      simp only
+      split
+      · intro c' r' res' h
+        simp only [updP] at h
+        split at h
+        · simp at h
+          obtain ⟨rfl, rfl⟩ := h
+          exact ⟨y.hist.length, Nat.le_refl _, by rw [stateAt_full, ← hi.state]⟩
+        · exact hi.pending c' r' res' h
+      · intro c' r' res' h
+        simp only at h
+        obtain ⟨m, hm, hres⟩ := hi.pending c' r' res' h
+        exact ⟨m, by simp; omega, by rw [stateAt_append _ hm]; exact hres⟩
+
+theorem rinv_run {env : Env} {s0 : State} : ∀ (sched : List (Nat × Req)) (y : RSys), RInv env s0 y →
+    RInv env s0 (regionRun env sched y)
+  | [], _, h => h
+  | cr :: rest, y, h => by
+    unfold regionRun
+    simp only [List.foldl_cons]
+    exact rinv_run rest _ (rinv_step h cr.1 cr.2)
+
 end CaddyModel.C12
